@@ -1215,8 +1215,16 @@ func (r *vRunner) history(hist int, nOps int) {
 				}
 				if svc.Seed != "" && live {
 					rec := r.validRecipe("did:example:s5")
-					rec.Creds = []string{"orgNoId", "holder"}
-					r.exec(vOp{Op: "pollinject", Recipe: &rec, Class: "server-hands-out-credential-without-id"}, nil)
+					class := "server-hands-out-credential-without-id"
+					switch rng.Intn(4) {
+					case 0: // round 3: what the loop of updateService would dereference — refused before anything is stored
+						class, rec.NoID = "hostile:malformed-no-id", true
+					case 1:
+						class, rec.Format = "hostile:malformed-not-jwt", []string{"zero", "ld"}[rng.Intn(2)]
+					default:
+						rec.Creds = []string{"orgNoId", "holder"}
+					}
+					r.exec(vOp{Op: "pollinject", Recipe: &rec, Class: class}, nil)
 				}
 			}
 		case p < 94:
